@@ -136,22 +136,46 @@ func (g *vfG) label(path, what string) string {
 	return fmt.Sprintf("%s#%s", path, what)
 }
 
+// vfUniform draws a (nearly) uniform number in [0,n). rapid's integer generators are deliberately
+// biased towards small values, which would starve the later options of every choice; ten unbiased
+// boolean draws are not. Shrinks towards 0.
+func vfUniform(rt *rapid.T, label string, n int) int {
+	bits := rapid.SliceOfN(rapid.Bool(), 10, 10).Draw(rt, label)
+	v := 0
+	for _, b := range bits {
+		v <<= 1
+		if b {
+			v |= 1
+		}
+	}
+	return v * n / 1024
+}
+
 // chance is true with probability pct/100; shrinks towards false.
 func (g *vfG) chance(path, what string, pct int) bool {
-	return rapid.IntRange(0, 99).Draw(g.rt, g.label(path, what)) >= 100-pct
+	return vfUniform(g.rt, g.label(path, what), 100) >= 100-pct
 }
 
 // pick draws one of xs; shrinks towards the first.
 func (g *vfG) pick(path, what string, xs ...string) string {
-	return xs[rapid.IntRange(0, len(xs)-1).Draw(g.rt, g.label(path, what))]
+	return xs[vfUniform(g.rt, g.label(path, what), len(xs))]
+}
+
+// pickGB draws from good most of the time and from bad (values validation should reject, or
+// unusual ones) with probability badPct/100.
+func (g *vfG) pickGB(path, what string, badPct int, good []string, bad []string) string {
+	if len(bad) > 0 && g.chance(path, what+"-bad", badPct) {
+		return bad[vfUniform(g.rt, g.label(path, what+"-badv"), len(bad))]
+	}
+	return good[vfUniform(g.rt, g.label(path, what), len(good))]
 }
 
 func (g *vfG) pickInt(path, what string, xs ...int64) int64 {
-	return xs[rapid.IntRange(0, len(xs)-1).Draw(g.rt, g.label(path, what))]
+	return xs[vfUniform(g.rt, g.label(path, what), len(xs))]
 }
 
 func (g *vfG) intn(path, what string, lo, hi int) int {
-	return rapid.IntRange(lo, hi).Draw(g.rt, g.label(path, what))
+	return lo + vfUniform(g.rt, g.label(path, what), hi-lo+1)
 }
 
 func (g *vfG) Present() []string {
@@ -290,7 +314,7 @@ func (g *vfG) Slice(t reflect.Type, tag vfTag, path string) interface{} {
 		out := []interface{}{}
 		seen := map[string]bool{}
 		for i := 0; i < n; i++ {
-			m := g.pick(path+"[]", "method", "GET", "POST", "PUT", "OPTIONS", "HEAD", "DELETE", "FOO")
+			m := g.pickGB(path+"[]", "method", 3, []string{"GET", "POST", "PUT", "OPTIONS", "HEAD", "DELETE"}, []string{"FOO"})
 			if seen[m] && tag.unique {
 				continue
 			}
@@ -309,7 +333,10 @@ func (g *vfG) Slice(t reflect.Type, tag vfTag, path string) interface{} {
 		out := []interface{}{}
 		seen := map[int64]bool{}
 		for i := 0; i < n; i++ {
-			c := g.pickInt(path+"[]", "code", 200, 404, 500, 503, 201, 99, 600)
+			c := g.pickInt(path+"[]", "code", 200, 404, 500, 503, 201, 502, 429)
+			if g.chance(path+"[]", "bad-code", 3) {
+				c = g.pickInt(path+"[]", "bad-codev", 99, 600)
+			}
 			if seen[c] && tag.unique {
 				continue
 			}
@@ -325,7 +352,7 @@ func (g *vfG) Slice(t reflect.Type, tag vfTag, path string) interface{} {
 		out := []interface{}{}
 		seen := map[string]bool{}
 		for i := 0; i < n; i++ {
-			c := g.pick(path+"[]", "ip", "127.0.0.1", "10.0.0.0/8", "::1", "192.0.2.1", "0.0.0.0/0", "nope")
+			c := g.pickGB(path+"[]", "ip", 3, []string{"127.0.0.1", "10.0.0.0/8", "::1", "192.0.2.1", "0.0.0.0/0"}, []string{"nope"})
 			if seen[c] {
 				continue
 			}
@@ -343,7 +370,7 @@ func (g *vfG) Slice(t reflect.Type, tag vfTag, path string) interface{} {
 	etag := vfTag{name: tag.name, goName: tag.goName}
 	seen := map[string]bool{}
 	for i := 0; i < n; i++ {
-		if (et.Kind() == reflect.Ptr || et.Kind() == reflect.Map) && g.chance(path+"[]", "null", 4) {
+		if (et.Kind() == reflect.Ptr || et.Kind() == reflect.Map) && g.chance(path+"[]", "null", 2) {
 			out = append(out, nil)
 			g.nulls++
 			g.bounds[vfLeaf(path)+":null-element"] = true
@@ -387,7 +414,7 @@ func (g *vfG) Map(t reflect.Type, tag vfTag, path string) interface{} {
 		default:
 			return out
 		}
-		if (et.Kind() == reflect.Ptr) && g.chance(path+"{}", "null", 4) {
+		if (et.Kind() == reflect.Ptr) && g.chance(path+"{}", "null", 2) {
 			out[k] = nil
 			g.nulls++
 			g.bounds[vfLeaf(path)+":null-value"] = true
@@ -420,7 +447,10 @@ func (g *vfG) MapKey(path string) string {
 func (g *vfG) Int(t reflect.Type, tag vfTag, path string) interface{} {
 	leaf := vfLeaf(path)
 	if tag.format == "httpcode" {
-		c := g.pickInt(path, "code", 200, 404, 500, 503, 100, 599, 99, 600, 0)
+		c := g.pickInt(path, "code", 200, 404, 500, 503, 100, 599)
+		if g.chance(path, "bad-code", 4) {
+			c = g.pickInt(path, "bad-codev", 99, 600, 0)
+		}
 		if c < 100 || c > 599 {
 			g.bounds[leaf+":bad-code"] = true
 		}
@@ -431,19 +461,24 @@ func (g *vfG) Int(t reflect.Type, tag vfTag, path string) interface{} {
 	case reflect.Uint, reflect.Uint8, reflect.Uint16, reflect.Uint32, reflect.Uint64:
 		unsigned = true
 	}
-	var cands []int64
-	var classes []string
+	var cands, bad []int64
+	var classes, badClasses []string
 	add := func(v int64, c string) {
 		cands = append(cands, v)
 		classes = append(classes, c)
+	}
+	addBad := func(v int64, c string) {
+		bad = append(bad, v)
+		badClasses = append(badClasses, c)
 	}
 	if tag.min != nil {
 		add(*tag.min, "min")
 		add(*tag.min+1, "min+1")
 		if !(unsigned && *tag.min-1 < 0) {
-			add(*tag.min-1, "below-min")
-		} else {
-			add(0, "zero")
+			addBad(*tag.min-1, "below-min")
+		}
+		if *tag.min > 0 {
+			addBad(0, "zero")
 		}
 	} else {
 		add(0, "zero")
@@ -457,20 +492,20 @@ func (g *vfG) Int(t reflect.Type, tag vfTag, path string) interface{} {
 	add(10, "mid")
 	if tag.max != nil {
 		add(*tag.max, "max")
-		add(*tag.max+1, "above-max")
+		addBad(*tag.max+1, "above-max")
 	} else {
 		add(100, "mid")
 		add(1000, "large")
-	}
-	if tag.min != nil && *tag.min > 0 {
-		add(0, "zero")
 	}
 	switch leaf {
 	case "certindex":
 		add(-32768, "int16-min")
 		add(32767, "int16-max")
-	case "port":
-		// ports are assigned by the harness
+	}
+	if len(bad) > 0 && g.chance(path, "int-bad", 5) {
+		i := g.intn(path, "int-badv", 0, len(bad)-1)
+		g.bounds[leaf+":"+badClasses[i]] = true
+		return int(bad[i])
 	}
 	i := g.intn(path, "int", 0, len(cands)-1)
 	g.bounds[leaf+":"+classes[i]] = true
@@ -486,9 +521,7 @@ func (g *vfG) String(tag vfTag, path string) string {
 	leaf := vfLeaf(path)
 	p := g.pools
 	if tag.hasEnum {
-		xs := append([]string{}, tag.enum...)
-		xs = append(xs, "bogus")
-		s := g.pick(path, "enum", xs...)
+		s := g.pickGB(path, "enum", 3, tag.enum, []string{"bogus"})
 		if s == "bogus" {
 			g.bounds[leaf+":not-in-enum"] = true
 		}
@@ -496,7 +529,7 @@ func (g *vfG) String(tag vfTag, path string) string {
 	}
 	switch tag.format {
 	case "duration":
-		s := g.pick(path, "dur", "1ms", "2ms", "1ns", "5ms", "0s", "-1s", "10ms", "nope")
+		s := g.pickGB(path, "dur", 3, []string{"1ms", "2ms", "1ns", "5ms", "0s", "-1s", "10ms"}, []string{"nope"})
 		switch s {
 		case "0s":
 			g.bounds[leaf+":zero-duration"] = true
@@ -507,23 +540,23 @@ func (g *vfG) String(tag vfTag, path string) string {
 		}
 		return s
 	case "regexp":
-		s := g.pick(path, "re", "^/a", ".*", "^x(\\d+)$", "a+", "", "(")
+		s := g.pickGB(path, "re", 3, []string{"^/a", ".*", "^x(\\d+)$", "a+", ""}, []string{"("})
 		if s == "(" {
 			g.bounds[leaf+":bad-regexp"] = true
 		}
 		return s
 	case "url":
-		s := g.pick(path, "url", p.BackendURL, p.BackendURL+"/base", p.DeadURL, "http://[::1]:1", "", "::", "http://%zz", "http://a]:1")
+		s := g.pickGB(path, "url", 4, []string{p.BackendURL, p.BackendURL + "/base", p.DeadURL, "http://[::1]:1", ""}, []string{"::", "http://%zz", "http://a]:1"})
 		return s
 	case "uri":
-		return g.pick(path, "uri", p.BackendURL+"/remote", p.BackendURL+"/status/500", p.DeadURL, "", "%zz", "::")
+		return g.pickGB(path, "uri", 10, []string{p.BackendURL + "/remote", p.BackendURL + "/status/500", p.DeadURL}, []string{"", "%zz", "::"})
 	case "base64":
-		s := g.pick(path, "b64", "aGVsbG8=", p.CertB64, p.KeyB64, "", "!!!")
+		s := g.pickGB(path, "b64", 3, []string{"aGVsbG8=", p.CertB64, p.KeyB64, ""}, []string{"!!!"})
 		return s
 	case "httpmethod":
-		return g.pick(path, "method", "GET", "POST", "PUT", "", "FOO")
+		return g.pickGB(path, "method", 3, []string{"GET", "POST", "PUT", ""}, []string{"FOO"})
 	case "urlname":
-		return g.pick(path, "urlname", "f1", "f2", "f3", "END", "a b")
+		return g.pickGB(path, "urlname", 3, []string{"f1", "f2", "f3"}, []string{"END", "a b"})
 	case "hostport":
 		return g.pick(path, "hostport", "127.0.0.1:1", "nope")
 	case "ipcidr":
@@ -532,11 +565,11 @@ func (g *vfG) String(tag vfTag, path string) string {
 		return g.pick(path, "time", "2020-01-02T03:04:05Z", "nope")
 	}
 	if tag.pattern == "^/" {
-		s := g.pick(path, "path", "/", "/a", "/a/b", "/status", "a")
+		s := g.pickGB(path, "path", 3, []string{"/", "/a", "/a/b", "/status"}, []string{"a"})
 		return s
 	}
 	if strings.Contains(tag.pattern, "A-Fa-f0-9") {
-		s := g.pick(path, "hex", "6d79736563726574", "abcd", "abc", "", "zz")
+		s := g.pickGB(path, "hex", 4, []string{"6d79736563726574", "abcd", "abc"}, []string{"", "zz"})
 		return s
 	}
 	switch leaf {
@@ -563,7 +596,7 @@ func (g *vfG) String(tag vfTag, path string) string {
 	case "template":
 		return g.pick(path, "tmpl", vfTemplates...)
 	case "protocol":
-		return g.pick(path, "proto", "http", "HTTP", "mqtt", "", "x")
+		return g.pickGB(path, "proto", 4, []string{"http", "HTTP", "mqtt"}, []string{"", "x"})
 	case "sourcenamespace", "namespace":
 		return g.pick(path, "ns", "", "DEFAULT", "ns1")
 	case "leftdelim":
@@ -593,7 +626,7 @@ func (g *vfG) String(tag vfTag, path string) string {
 	case "accesskeysecret":
 		return g.pick(path, "sk", "", "secret1")
 	case "matchexpr", "exprs", "bannedclientre", "bannedtopicre", "pathregexp":
-		s := g.pick(path, "re", "^a", "b.*", ".*", "", "^x(\\d+)$", "(")
+		s := g.pickGB(path, "re", 4, []string{"^a", "b.*", ".*", "", "^x(\\d+)$"}, []string{"("})
 		if s == "(" {
 			g.bounds[leaf+":bad-regexp"] = true
 		}
@@ -625,10 +658,13 @@ func (g *vfG) String(tag vfTag, path string) string {
 	case "prefix":
 		return g.pick(path, "prefix", "/", "/a", "v", "")
 	case "regex":
-		return g.pick(path, "regex", "^/a", ".*", "", "(")
+		return g.pickGB(path, "regex", 4, []string{"^/a", ".*", ""}, []string{"("})
 	case "spanname":
 		return g.pick(path, "span", "", "s1")
 	case "backend":
+		if path == "backend[]" { // Kafka broker list
+			return g.pick(path, "broker", "127.0.0.1:1")
+		}
 		return g.pick(path, "backend", "pl1", "pl2", "nope", "")
 	case "pipeline":
 		return g.pick(path, "pipeline", "pl1", "pl2", "nope", "")
@@ -681,11 +717,11 @@ func vfTypeHook(g *vfG, t reflect.Type, tag vfTag, path string) (interface{}, bo
 	}
 	switch t.String() {
 	case "urlrule.StringMatch", "proxy.StringMatcher":
-		if g.chance(path, "generic", 12) {
+		if g.chance(path, "generic", 4) {
 			return nil, false
 		}
 		m := map[string]interface{}{}
-		switch g.pick(path, "matcher", "exact", "prefix", "regex", "empty", "exact+regex", "empty+exact", "badregex") {
+		switch g.pickGB(path, "matcher", 4, []string{"exact", "prefix", "regex", "empty", "exact+regex"}, []string{"empty+exact", "badregex", "none"}) {
 		case "exact":
 			m["exact"] = g.pick(path, "v", "/a", "v1", "/status/500")
 		case "prefix":
@@ -706,7 +742,7 @@ func vfTypeHook(g *vfG, t reflect.Type, tag vfTag, path string) (interface{}, bo
 		}
 		return m, true
 	case "httpheader.ValueValidator":
-		if g.chance(path, "generic", 12) {
+		if g.chance(path, "generic", 5) {
 			return nil, false
 		}
 		m := map[string]interface{}{}
@@ -721,7 +757,7 @@ func vfTypeHook(g *vfG, t reflect.Type, tag vfTag, path string) (interface{}, bo
 		}
 		return m, true
 	case "proxy.RequestMatcherSpec":
-		if g.chance(path, "generic", 15) {
+		if g.chance(path, "generic", 5) {
 			return nil, false
 		}
 		m := map[string]interface{}{}
@@ -732,7 +768,7 @@ func vfTypeHook(g *vfG, t reflect.Type, tag vfTag, path string) (interface{}, bo
 		if pol == "" || pol == "general" {
 			hs, _ := g.Value(reflect.MapOf(reflect.TypeOf(""), vfFieldType(t, "Headers").Elem()), vfTag{name: "headers"}, path+".headers")
 			hm := hs.(map[interface{}]interface{})
-			if len(hm) == 0 && g.chance(path, "fix-headers", 85) {
+			if len(hm) == 0 && g.chance(path, "fix-headers", 95) {
 				hm["X-A"] = map[string]interface{}{"exact": "v1"}
 			}
 			m["headers"] = hm
@@ -743,11 +779,14 @@ func vfTypeHook(g *vfG, t reflect.Type, tag vfTag, path string) (interface{}, bo
 				g.present[path+".urls"] = true
 			}
 		} else {
-			pm := g.pickInt(path, "permil", 1, 500, 1000, 0, 1001)
+			pm := g.pickInt(path, "permil", 1, 500, 1000)
+			if g.chance(path, "permil-bad", 4) {
+				pm = g.pickInt(path, "permil-badv", 0, 1001)
+			}
 			m["permil"] = int(pm)
 			g.bounds[fmt.Sprintf("permil:%d", pm)] = true
 			if pol == "headerHash" {
-				m["headerHashKey"] = g.pick(path, "hhk", "X-A", "")
+				m["headerHashKey"] = g.pickGB(path, "hhk", 4, []string{"X-A", "X-B"}, []string{""})
 			}
 		}
 		return m, true
@@ -762,7 +801,7 @@ func vfTypeHook(g *vfG, t reflect.Type, tag vfTag, path string) (interface{}, bo
 			"methods":       []interface{}{"GET", g.pick(path, "m", "POST", "HEAD")},
 		}, true
 	case "proxy.ServerPoolSpec":
-		if g.chance(path, "generic", 12) {
+		if g.chance(path, "generic", 4) {
 			return nil, false
 		}
 		m := map[string]interface{}{}
@@ -770,7 +809,7 @@ func vfTypeHook(g *vfG, t reflect.Type, tag vfTag, path string) (interface{}, bo
 		// servers / serviceName
 		svs, _ := m["servers"].([]interface{})
 		if sn, _ := m["serviceName"].(string); len(svs) == 0 && sn == "" {
-			if g.chance(path, "fix-servers", 90) {
+			if g.chance(path, "fix-servers", 96) {
 				f, _ := t.FieldByName("Servers")
 				n := g.intn(path, "nservers", 1, 3)
 				svs = nil
@@ -782,7 +821,7 @@ func vfTypeHook(g *vfG, t reflect.Type, tag vfTag, path string) (interface{}, bo
 			}
 		}
 		// weights: all zero or all positive, most of the time
-		if len(svs) > 0 && g.chance(path, "fix-weights", 85) {
+		if len(svs) > 0 && g.chance(path, "fix-weights", 95) {
 			mode := g.pick(path, "weights", "none", "positive", "zero")
 			for _, s := range svs {
 				sm, ok := s.(map[string]interface{})
@@ -818,7 +857,7 @@ func vfTypeHook(g *vfG, t reflect.Type, tag vfTag, path string) (interface{}, bo
 	case "ratelimiter.Policy":
 		m := map[string]interface{}{}
 		g.Struct(t, path, m)
-		if g.chance(path, "fix", 85) {
+		if g.chance(path, "fix", 95) {
 			if _, ok := m["name"]; !ok {
 				m["name"] = g.pick(path, "name", "p1", "p2")
 			}
@@ -839,7 +878,23 @@ func vfFieldType(t reflect.Type, name string) reflect.Type {
 // vfKindFixup post-processes the generated tree of a filter kind so that cross-field Validate()
 // rules hold most of the time (applied with high probability; the raw tree is kept otherwise).
 func vfKindFixup(g *vfG, kind string, t reflect.Type, m map[string]interface{}) {
-	if !g.chance(kind, "fixup", 88) {
+	if kind == "Proxy" {
+		// The mirror pool runs in its own goroutine (proxy.go:299): a panic there cannot be recovered
+		// by anybody and kills the whole process. The known weightedRandom/zero-weight panic is
+		// therefore only produced on main and candidate pools; mirror pools always get positive weights.
+		if mp, ok := m["mirrorPool"].(map[string]interface{}); ok {
+			if lb, ok := mp["loadBalance"].(map[string]interface{}); ok && lb["policy"] == "weightedRandom" {
+				svs, _ := mp["servers"].([]interface{})
+				for _, s := range svs {
+					if sm, ok := s.(map[string]interface{}); ok {
+						sm["weight"] = 1
+					}
+				}
+				g.bounds["mirrorPool:weightedRandom-forced-positive-weights"] = true
+			}
+		}
+	}
+	if !g.chance(kind, "fixup", 94) {
 		return
 	}
 	switch kind {
